@@ -232,7 +232,8 @@ NEG = [
                        'rgb(1;2;3)', 'color256()', 'color256(1,2)', 'colour256(x)', 'bg_rgb(1,,2)', 'rgb(0x)',
                        'xx_rgb(1,2,3)', 'rgb 1,2,3', 'fg_color256(-1)', 'rgb(0b11,0,0)', 'color256(0b1)', 'rgb(0o7,1,2)',
                        'rgb(1_0,2,3)', 'color256(1_0)', 'rgb(1.0,2,3)', 'rgb(+1,2,3)', 'color256(0xg)', 'rgb(0x1,0x,3)',
-                       'rgb(\u0663,1,2)'], ValueError),
+                       'rgb(\u0663,1,2)', 'rgb([1,2,3)', 'rgb(1,2,3])', 'rgb((1,2,3)', 'color256([7)', 'rgb(1,2,3)\n',
+                       'color256(7)\n', 'bg_rgb([1,2,3))'], ValueError),
     ('unsupported-type', [[1.5], [None], [b'1'], [{}], ['bold', 1.5], (None,), [[{}]], [object]], TypeError),
 ]
 
@@ -260,6 +261,19 @@ def check_negative(ctx, L, rng):
     if not isinstance(out, exc_t) or before != (str(s), [s.settings_at(i) for i in range(2)]):
         ctx.violation('bad-form-not-rejected-by-apply', {'kind': kind, 'form': repr(form), 'outcome': repr(out)},
                       mech='not-rejected-apply:' + kind)
+    # ... also when there is nothing to apply them to (empty text, empty range)
+    for what, fn in (('empty-text', lambda: L.AnsiString('', form)), ('empty-text-AnsiStr', lambda: L.AnsiStr('', form)),
+                     ('empty-range', lambda: L.AnsiString('abc').apply_formatting(form, 2, 1)),
+                     ('empty-range-remove', lambda: L.AnsiString('abc', 'red').remove_formatting(form, 2, 1))):
+        try:
+            fn()
+            out = None
+        except Exception as e:
+            out = e
+        ctx.ev('rejection')
+        if not isinstance(out, exc_t):
+            ctx.violation('bad-form-not-rejected-on-' + what, {'kind': kind, 'form': repr(form), 'outcome': repr(out)},
+                          mech='not-rejected-empty-target:' + kind)
     # a list containing itself
     lst = ['bold']
     lst.append(lst)
